@@ -108,12 +108,14 @@ def scopeSyms (inp : Input) (scope : Option Nat) : List (String × Sym) :=
   nsFrom inp.nss 0 ++
     (inp.entries.filter (fun e => e.scope == scope)).map (fun e => (e.name, e.sym))
 
-/-- insert a name into a strictly sorted list of distinct names (`String::cmp` = `<` on `String`) -/
-def insertName (n : String) : List String → List String
+/-- insertion into a list sorted by `String::cmp` (= `<` on `String`) -/
+def insertSorted (n : String) : List String → List String
   | [] => [n]
-  | m :: r => if n < m then n :: m :: r else if n == m then m :: r else m :: insertName n r
+  | m :: r => if n < m then n :: m :: r else m :: insertSorted n r
 
-def sortedNames (xs : List String) : List String := xs.foldr insertName []
+/-- the keys of the per-scope `HashMap<String, Vec<NameSymbol>>` (each name once), sorted -/
+def sortedNames (xs : List String) : List String :=
+  xs.foldr (fun n acc => if acc.contains n then acc else insertSorted n acc) []
 
 /-- the sorted `(name, symbols)` vector of a scope -/
 def groupsOf (syms : List (String × Sym)) : List (String × List Sym) :=
